@@ -104,7 +104,9 @@ PROPS = {
     },
     "C19": {
         "runs": genesis_runs, "replay_runs": replay_runs, "monitor": mon_genesis.c19,
-        "diff_relevant": lambda d: d["mod"] == "genesis",
+        # the round trip at the end of a history (mod "genesis") and every restart step inside one: the state may not
+        # change, and the concrete genesis model (Canine/Genesis/Modules.lean) must export what the chain exported
+        "diff_relevant": lambda d: d["mod"] == "genesis" or d["op"] == "restart",
         "trusted_base": BASE_TRUST + ["the table of record kinds each genesis carries (Canine/Genesis/Model.lean) is hand-written from x/*/genesis.go and compared with a real export/validate/import round trip of every module on every run"],
         "assumptions": ["record kinds are identified by their store-key prefix", "oracle feeds are only populated when a history happens to create them (module covered by the same round trip)"],
     },
